@@ -5,6 +5,8 @@ import importlib, json, os, sys
 HERE = os.path.dirname(os.path.dirname(os.path.abspath(__file__)))
 sys.path.insert(0, HERE)
 tier = sys.argv[1]
+evdir = sys.argv[2] if len(sys.argv) > 2 else os.path.join(HERE, 'evidence')
+accept_inconclusive_floor_only = len(sys.argv) > 2
 path = os.path.join(HERE, 'ypv', 'floors.json')
 try:
     cal = json.load(open(path))
@@ -12,8 +14,12 @@ except FileNotFoundError:
     cal = {}
 for i in range(1, 21):
     pid = 'C%02d' % i
-    ev = json.load(open(os.path.join(HERE, 'evidence', pid + '.json')))
-    if ev['tier'] != tier or ev.get('verdict') != 'held':
+    try:
+        ev = json.load(open(os.path.join(evdir, pid + '.json')))
+    except FileNotFoundError:
+        print('missing', pid); continue
+    floor_only = ev.get('verdict') == 'inconclusive' and all('below floor' in r for r in ev.get('inconclusive_reasons', []))
+    if ev['tier'] != tier or not (ev.get('verdict') == 'held' or (accept_inconclusive_floor_only and floor_only)):
         print('skip', pid, ev['tier'], ev.get('verdict'))
         continue
     mod = importlib.import_module('ypv.checks.c%02d' % i)
